@@ -21,7 +21,7 @@ fn replay_l4(ctx: &Ctx, v: &Value, prop: l4::Prop) -> i32 {
     ctx.replay::<l4::Case>(v, |c| l4::run_case(c, prop))
 }
 
-const BASE: l4::gen::P = l4::gen::P { pause: 0, inject: 0, panic: 0, stop: 0, busy: 0, uds: false, max_limit: 3, taskpanic: 1, abort: 0, gate: 0 };
+const BASE: l4::gen::P = l4::gen::P { pause: 0, inject: 0, panic: 0, stop: 0, busy: 0, uds: false, max_limit: 3, taskpanic: 1, abort: 0, gate: 0, churn: 0 };
 
 pub fn run_c01(ctx: &Ctx) {
     l4_part(ctx, "l4", l4::Prop::C01, l4::gen::P { pause: 1, uds: true, abort: 2, gate: 2, ..BASE }, ctx.tier.scale(300, 4));
@@ -42,6 +42,7 @@ pub fn replay_c02(ctx: &Ctx, v: &Value) -> i32 {
 
 pub fn run_c03(ctx: &Ctx) {
     l4_part(ctx, "l4", l4::Prop::C03, l4::gen::P { taskpanic: 2, ..BASE }, ctx.tier.scale(400, 4));
+    ctx.run_random(Part::new("l4-churn", RULE_L4, ctx.tier.scale(16, 4)).shards(4).shrink_iters(4), l4::gen::churn_strategy, move |c| l4::run_case(c, l4::Prop::C03));
     ctx.inconclusive(WHY);
 }
 pub fn replay_c03(ctx: &Ctx, v: &Value) -> i32 {
@@ -50,6 +51,7 @@ pub fn replay_c03(ctx: &Ctx, v: &Value) -> i32 {
 
 pub fn run_c04(ctx: &Ctx) {
     ctx.run_corpus::<l4::Case>("l4", |c| l4::run_case(c, l4::Prop::C04));
+    ctx.run_random(Part::new("l4-churn", RULE_L4, ctx.tier.scale(16, 4)).shards(4).shrink_iters(4), l4::gen::churn_strategy, move |c| l4::run_case(c, l4::Prop::C04));
     ctx.run_random(Part::new("l4", RULE_L4, ctx.tier.scale(300, 4)).shards(8).shrink_iters(8), l4::gen::c04_strategy, |c| l4::run_case(c, l4::Prop::C04));
     ctx.inconclusive(WHY);
 }
